@@ -67,6 +67,13 @@ JoinNames(p, sep) == IF Len(p) = 0 THEN <<>> ELSE IF Len(p) = 1 THEN p[1] ELSE p
 Render(p, pat) == (IF pat.abs THEN <<"ROOT", "/">> ELSE <<>>) \o JoinNames(p, SepOf(pat)) \o (IF pat.slash THEN SepOf(pat) ELSE <<>>)
 ExpectedStrings(fs, pat) == {Render(p, pat) : p \in Expected(fs, pat)}
 
+(* The pattern written as a word and expanded (XCU 2.6.6): the matching paths, or -- when nothing matches -- the   *)
+(* word itself with its quotes removed.                                                                            *)
+RECURSIVE Unq(_, _)
+Unq(c, i) == IF i > Len(c) THEN <<>> ELSE IF c[i] = "\\" /\ i < Len(c) THEN <<c[i + 1]>> \o Unq(c, i + 2) ELSE <<c[i]>> \o Unq(c, i + 1)
+WordText(pat) == JoinNames([i \in 1..Len(pat.comps) |-> Unq(pat.comps[i], 1)], <<"/">>) \o (IF pat.slash THEN <<"/">> ELSE <<>>)
+ExpectedWord(fs, pat) == LET m == ExpectedStrings(fs, pat) IN IF m = {} THEN {WordText(pat)} ELSE m
+
 (* an unusable pattern: a component that Pattern.tla does not accept as well-formed *)
 WellFormed(pat) == \A i \in 1..Len(pat.comps) : Literal(pat.comps[i])[1] \/ P!Parse(pat.comps[i]).st = "ok"
 =============================================================================
